@@ -36,7 +36,7 @@ def run(tier, replay=None):
     else:
         ngrid, nseq, nsys = 40000 // W + 1, 1000000 // W + 1, 200000 // W + 1
     argsets = [[seed * 1000 + w, ngrid, nseq, nsys, "@OUT"] for w in range(W)]
-    res = common.run_selfgen(exe, argsets, tag="c02")
+    res = common.run_selfgen(exe, argsets, tag="c02", timeout=900 if tier == "quick" else 4 * 3600)
     table = [[0, 0, 0] for _ in range(16)]
     bytes_seen = [0] * 256
     filt = [0] * 6
